@@ -178,7 +178,7 @@ class DocGen:
 
     def __init__(self, rng, depth=3, unit=None, p_el=0.5, p_ready=0.6, p_skip=0.12, p_unwrap=0.3, p_blank=0.2,
                  p_wsonly=0.3, allow_unwrap=True, kinds=("tl", "tl", "rm", "rm", "zz"), max_items=4, unique=False,
-                 times=None, names=None, p_inline=0.0):
+                 times=None, names=None, p_inline=0.0, p_wrapper_tags=0.0):
         self.rng = rng
         self.depth = depth
         self.unit = unit or rng.choice(["  ", "    ", "\t"])
@@ -188,6 +188,7 @@ class DocGen:
         self.counter = 0
         self.times, self.names = times, names
         self.p_inline = p_inline
+        self.p_wrapper_tags = p_wrapper_tags
 
     def word(self):
         self.counter += 1
@@ -217,6 +218,16 @@ class DocGen:
                 if e.unwrap:
                     e.wrap_open = rng.choice(["if (x) {", "{", "while (y) {", "begin é"])
                     e.wrap_close = rng.choice(["}", "end", "} // x"])
+                    if rng.random() < self.p_wrapper_tags:
+                        sp0 = Spelling()
+                        def inl():
+                            k = rng.choice(["rm", "rm", "tl"])
+                            ie = El(k, rng.random() < 0.8)
+                            return sp0.open_tag(ie) + rng.choice(["", "x", "é"]) + sp0.close_tag(ie)
+                        n_in = rng.choice([1, 2, 2, 3])
+                        e.wrap_open = rng.choice(["{ ", "", "é "]) + rng.choice([" ", ""]).join(inl() for _ in range(n_in)) + rng.choice(["", " y", "é  y"])
+                        if rng.random() < 0.4:
+                            e.wrap_close = rng.choice(["} ", ""]) + inl() + rng.choice(["", " é"])
                     e.children = self.block(depth - 1, inner, n=rng.choice([0, 1, 1, 2, 3, 4]))
                 else:
                     e.children = self.block(depth - 1, inner)
@@ -233,7 +244,8 @@ class DocGen:
                 self.counter += 1
                 e.id = self.counter
                 items.append(Line(None, inline=e, pre=indent + rng.choice(["", "\t", "a ", self.word() + " "]),
-                                  mid=rng.choice(["", "b", " é ", self.word()]), post=rng.choice(["", " c", ";", " " + self.word()])))
+                                  mid=rng.choice(["", "b", " é ", "\t", self.word()]),
+                                  post=rng.choice(["", " c", ";", " " + self.word(), "\t// c", "\t", " \tx\t"])))
             else:
                 extra = rng.choice(["", "", self.unit])
                 items.append(Line(indent + extra + self.word()))
@@ -379,6 +391,8 @@ U_OPEN = "<tl to='%s' unwrap-block>" % READY_T
 U_CLOSE = "</tl>"
 LINE_SHAPES = ["{", "}", "  code();", "", "  ", "<rm name='a'>", "</rm>", "<rm name='a'>x</rm>",
                "<rm name='a'> code", "<rm name='b'>", "code </rm>", U_OPEN, U_CLOSE]
+# shapes that put tags on wrapper lines next to multi-byte text (D3 / D15 geometries)
+WRAPPER_SHAPES = ["{ <rm name='a'>", "</rm>é  y", "</rm>  é", "é <rm name='a'>", "</rm>", "<rm name='a'>é</rm>あ", "  y", "}", "あ"]
 
 
 def g_unwrap_exhaustive(maxk, shapes=None):
@@ -392,11 +406,12 @@ def g_unwrap_random(rng, n, maxk=6, shapes=None):
     shapes = shapes or LINE_SHAPES
     for _ in range(n):
         k = rng.randint(0, maxk)
-        ind = rng.choice(["", "  ", "\t"])
-        body = [rng.choice([ind, ind + "  ", ""]) + rng.choice(shapes) for _ in range(k)]
+        ind = rng.choice(["", "  ", "\t", "  a ", "é ", "\tb "])
+        pool = shapes if rng.random() < 0.6 else WRAPPER_SHAPES
+        body = [rng.choice([ind, "  ", "    ", ""]) + rng.choice(pool) for _ in range(k)]
         pre = [] if rng.random() < 0.3 else ["pre"]
         post = [] if rng.random() < 0.3 else ["post"]
-        s = "\n".join(pre + [ind + U_OPEN] + body + [ind + U_CLOSE] + post)
+        s = "\n".join(pre + [ind + U_OPEN] + body + [rng.choice([ind, "", "  "]) + U_CLOSE + rng.choice(["", "", " é"])] + post)
         if rng.random() < 0.7:
             s += "\n"
         yield s
